@@ -130,7 +130,14 @@ def c_z2rank(ctx, args):
     return r
 
 
-CHECKS = {'ent_corr': c_ent_corr, 'ent_dense': c_ent_dense, 'ent_forms': c_ent_forms, 'ent_invariance': c_ent_invariance, 'z2rank': c_z2rank}
+def c_history(ctx, args):
+    """a query on ONE reused object, after in-place (often sign-only) updates, equals the same query on a fresh equal object"""
+    from vlib import history
+    kind, n, seed, steps, which = args
+    return history.reused_object_history(ctx, kind, n, seed, steps, which)
+
+
+CHECKS = {'ent_corr': c_ent_corr, 'ent_dense': c_ent_dense, 'ent_forms': c_ent_forms, 'ent_invariance': c_ent_invariance, 'z2rank': c_z2rank, 'history': c_history}
 
 
 def run(ctx):
@@ -168,3 +175,6 @@ def run(ctx):
         nr, nc = rng.randint(1, 8), rng.randint(1, 8)
         m = [[rng.randint(0, 1) for _ in range(nc)] for _ in range(nr)]
         do(ctx, 'z2rank', ['np', m], nontrivial=('z', str(m)))
+    # histories on one reused object: lazily kept results must follow every in-place update
+    for _ in range(int(40 * B)):
+        do(ctx, 'history', ['state', rng.randint(1, 4), rng.randrange(10 ** 6), rng.randint(4, 12), ['entropy']], nontrivial=('h', 'state', ctx.res.evaluations))
